@@ -1,8 +1,12 @@
 #!/usr/bin/env python3
 """Validation of LuaCore (there is no real Lua interpreter in the sandbox to compare with).
 
-(a) corpus/lua/*.lua: small snippets whose expected output was written from the Lua 5.1 reference
-    manual / LuaJIT behaviour.  Header lines:
+Everything is run under both dialects: "5.3" (PUC-Rio Lua 5.3, the project's reference semantics, what
+the repo's CI runs) and "jit" (LuaJIT 2.x / Lua 5.1 rules, information only).
+
+(a) corpus/lua/*.lua: small snippets whose expected output was written from the Lua 5.1 / 5.3 reference
+    manuals and LuaJIT behaviour.  Header lines (a tag [5.3] or [jit] after the keyword restricts the
+    line to one dialect, e.g. `-- expect[5.3]: 2.0`; untagged lines hold for both):
         -- expect: <printed line>          (one per printed line, in order)
         -- expect-error: <substring of the error message>      (final must be an error)
         -- expect-final: done|error|fuel|unsupported|loaderr    (default done, or error with expect-error)
@@ -15,11 +19,12 @@
     `// error: #...` -> a runtime error is expected.
 
 Exit status 0 iff everything agrees (programs needing unsupported features are listed, not failed).
-Usage: lua_selftest.py [--corpus-only] [--tests-only] [--fuel N] [-v]
+Usage: lua_selftest.py [--corpus-only] [--tests-only] [--dialect 5.3|jit] [--fuel N] [-v]
 """
 import glob
 import json
 import os
+import re
 import sys
 import time
 
@@ -34,9 +39,14 @@ TESTS = os.path.join(vlib.REPO, "tests")
 # ------------------------------------------------------------------------------------------------
 # (a) corpus
 
-def parse_header(text):
+def parse_header(text, dialect):
     exp = {"lines": [], "error": None, "final": None, "wf": None, "fuel": None}
     for l in text.split("\n"):
+        m = re.match(r"^-- (expect[a-z-]*)\[([a-z0-9.]+)\](:.*)$", l)
+        if m:
+            if m.group(2) != dialect:
+                continue
+            l = "-- " + m.group(1) + m.group(3)
         if l.startswith("-- expect: "):
             exp["lines"].append(l[len("-- expect: "):])
         elif l == "-- expect:":
@@ -54,19 +64,19 @@ def parse_header(text):
     return exp
 
 
-def run_corpus(verbose=False):
+def run_corpus(dialect, verbose=False):
     files = sorted(glob.glob(os.path.join(CORPUS, "*.lua")))
     srcs = [open(f, encoding="utf-8").read() for f in files]
-    exps = [parse_header(s) for s in srcs]
+    exps = [parse_header(s, dialect) for s in srcs]
     results = [None] * len(files)
     by_fuel = {}
     for i, e in enumerate(exps):
         by_fuel.setdefault(e["fuel"] or 20000, []).append(i)
     for fuel, idx in by_fuel.items():
-        for i, r in zip(idx, lua_run.run_lua([srcs[i] for i in idx], fuel)):
+        for i, r in zip(idx, lua_run.run_lua([srcs[i] for i in idx], fuel, dialect)):
             results[i] = r
     wf_idx = [i for i, e in enumerate(exps) if e["wf"] is not None]
-    wfs = dict(zip(wf_idx, lua_run.lua_wf([srcs[i] for i in wf_idx])))
+    wfs = dict(zip(wf_idx, lua_run.lua_wf([srcs[i] for i in wf_idx], dialect)))
     bad = []
     for i, (f, e, r) in enumerate(zip(files, exps, results)):
         name = os.path.basename(f)
@@ -134,9 +144,10 @@ def expected_errors(src):
     return errs
 
 
-# Disagreements with the repo's expectation that were investigated and are NOT interpreter bugs: the
-# repo's CI runs the tests with Lua 5.3 (.github/workflows/coverage.yml), LuaCore models Lua 5.1/LuaJIT.
-EXPLAINED = {
+# Disagreements with the repo's expectation UNDER THE "jit" DIALECT that were investigated and are not
+# interpreter bugs: the repo's CI runs the tests with Lua 5.3 (.github/workflows/coverage.yml); under the
+# "5.3" dialect both programs run to done.
+EXPLAINED_JIT = {
     "core/string_conversion.sy":
         "`as_str(2.0) <=> \"2.0\"`: tostring(2.0) is \"2\" in Lua 5.1/LuaJIT (\"2.0\" only since Lua 5.3); "
         "every other assertion of the file holds",
@@ -154,7 +165,7 @@ def compile_tests(files):
     return vlib.harness("compile", cases, timeout_s=30)
 
 
-def run_tests(fuel, verbose=False):
+def compile_accepted():
     ok, out = vlib.build_harness()
     if not ok:
         raise RuntimeError("harness build failed:\n" + out[-3000:])
@@ -167,8 +178,15 @@ def run_tests(fuel, verbose=False):
         counts[k if k in counts else "other"] += 1
         if k == "OK":
             accepted.append((f, vlib.unhex(line.split(" ")[1])))
-    results = lua_run.run_lua([lua for _, lua in accepted], fuel)
-    wfs = lua_run.lua_wf([lua for _, lua in accepted])
+    return len(files), counts, accepted
+
+
+def run_tests(accepted, fuel, dialect):
+    explained = EXPLAINED_JIT if dialect == "jit" else {}
+    for _, lua in accepted[:1]:
+        lua_run.split_preamble(lua)      # the emitted text starts with the repo's preamble.lua
+    results = lua_run.run_lua([lua for _, lua in accepted], fuel, dialect)
+    wfs = lua_run.lua_wf([lua for _, lua in accepted], dialect)
     report = {"agree": [], "disagree": [], "explained": [], "unsupported": [], "wf_bad": []}
     for (f, lua), r, wf in zip(accepted, results, wfs):
         rel = os.path.relpath(f, TESTS)
@@ -180,11 +198,11 @@ def run_tests(fuel, verbose=False):
             report["unsupported"].append((rel, r["msg"]))
         elif r["final"] == want:
             report["agree"].append((rel, r["final"], r["msg"]))
-        elif rel in EXPLAINED:
-            report["explained"].append((rel, "expected %s, got %s: %s" % (want, r["final"], r["msg"]), EXPLAINED[rel]))
+        elif rel in explained:
+            report["explained"].append((rel, "expected %s, got %s: %s" % (want, r["final"], r["msg"]), explained[rel]))
         else:
             report["disagree"].append((rel, "expected %s, got %s: %s" % (want, r["final"], r["msg"])))
-    return len(files), counts, report
+    return report
 
 
 def main(argv):
@@ -192,44 +210,56 @@ def main(argv):
     fuel = 400000
     if "--fuel" in argv:
         fuel = int(argv[argv.index("--fuel") + 1])
+    dialects = ["5.3", "jit"]
+    if "--dialect" in argv:
+        dialects = [argv[argv.index("--dialect") + 1]]
     status = 0
     t0 = time.time()
     lua_run.build()
     print("build: %.1fs" % (time.time() - t0))
     if "--tests-only" not in argv:
-        t = time.time()
-        n, bad = run_corpus(verbose)
-        print("corpus: %d snippets, %d failed (%.1fs)" % (n, len(bad), time.time() - t))
-        for name, problems in bad:
-            status = 1
-            for p in problems:
-                print("  FAIL %s: %s" % (name, p))
+        for d in dialects:
+            t = time.time()
+            n, bad = run_corpus(d, verbose)
+            print("corpus [%s]: %d snippets, %d failed (%.1fs)" % (d, n, len(bad), time.time() - t))
+            for name, problems in bad:
+                status = 1
+                for p in problems:
+                    print("  FAIL [%s] %s: %s" % (d, name, p))
     if "--corpus-only" not in argv:
         t = time.time()
-        n, counts, rep = run_tests(fuel, verbose)
-        print("repo tests: %d programs, compiler accepted %d, rejected %d, other %d (%.1fs)"
+        n, counts, accepted = compile_accepted()
+        print("repo tests: %d programs, compiler accepted %d, rejected %d, other %d (compile %.1fs)"
               % (n, counts["OK"], counts["ERR"], counts["other"], time.time() - t))
-        print("  outcome as the repo's runner expects: %d   (done: %d, expected runtime error: %d)"
-              % (len(rep["agree"]), sum(1 for a in rep["agree"] if a[1] == "done"),
-                 sum(1 for a in rep["agree"] if a[1] == "error")))
-        for rel, fin, msg in rep["agree"]:
-            if fin == "error":
-                print("    expected runtime error  %s: %s" % (rel, msg))
-        print("  needs a feature LuaCore does not model: %d" % len(rep["unsupported"]))
-        for rel, msg in rep["unsupported"]:
-            print("    UNSUPPORTED %s: %s" % (rel, msg))
-        print("  differs from the repo's expectation for a known reason (Lua 5.3 vs 5.1/LuaJIT): %d" % len(rep["explained"]))
-        for rel, msg, why in rep["explained"]:
-            print("    EXPLAINED %s: %s\n        %s" % (rel, msg, why))
-        print("  DISAGREE: %d" % len(rep["disagree"]))
-        for rel, msg in rep["disagree"]:
-            status = 1
-            print("    DISAGREE %s: %s" % (rel, msg))
-        print("  emitted chunk not loadable according to lua_wf: %d" % len(rep["wf_bad"]))
-        for rel, why in rep["wf_bad"]:
-            print("    WF-BAD %s: %s" % (rel, why))
+        allrep = {}
+        for d in dialects:
+            t = time.time()
+            rep = run_tests(accepted, fuel, d)
+            allrep[d] = rep
+            print("dialect %s%s (%.1fs):" % (d, " (reference)" if d == "5.3" else " (information)", time.time() - t))
+            print("  outcome as the repo's runner expects: %d   (done: %d, expected runtime error: %d)"
+                  % (len(rep["agree"]), sum(1 for a in rep["agree"] if a[1] == "done"),
+                     sum(1 for a in rep["agree"] if a[1] == "error")))
+            for rel, fin, msg in rep["agree"]:
+                if fin == "error":
+                    print("    expected runtime error  %s: %s" % (rel, msg))
+            print("  needs a feature LuaCore does not model: %d" % len(rep["unsupported"]))
+            for rel, msg in rep["unsupported"]:
+                print("    UNSUPPORTED %s: %s" % (rel, msg))
+            if rep["explained"]:
+                print("  differs from the repo's expectation for a known reason (the tests assume Lua 5.3): %d"
+                      % len(rep["explained"]))
+                for rel, msg, why in rep["explained"]:
+                    print("    EXPLAINED %s: %s\n        %s" % (rel, msg, why))
+            print("  DISAGREE: %d" % len(rep["disagree"]))
+            for rel, msg in rep["disagree"]:
+                status = 1
+                print("    DISAGREE %s: %s" % (rel, msg))
+            print("  emitted chunk not loadable according to lua_wf: %d" % len(rep["wf_bad"]))
+            for rel, why in rep["wf_bad"]:
+                print("    WF-BAD %s: %s" % (rel, why))
         out = os.path.join(vlib.BUILD, "lua_selftest.json")
-        json.dump(rep, open(out, "w"), indent=1)
+        json.dump(allrep, open(out, "w"), indent=1)
     print("total: %.1fs" % (time.time() - t0))
     return status
 
